@@ -2,7 +2,7 @@
   Verilog engine — proof side, part 9: ReaderShape discharged for the reader's own output (fragment designs).
 -/
 import Spydr.Verilog.RoundTripDesign
-import Spydr.Verilog.Props.C04
+import Spydr.Verilog.Props.C04Emit
 namespace Spydr.Verilog.Elab
 open Spydr.Verilog
 
